@@ -1063,6 +1063,30 @@ func ruleC20(c *Ctx, r *Report) {
 			r.viol("MP-C20b", name, cons, c.Pos(call.Pos()), "the SET statement's error is not branched on here")
 			continue
 		}
+		// on the failure edge the connection's belief is never moved (further) towards the client's settings: the backend
+		// applied nothing of the rejected SET
+		{
+			setVars := c.IfaceMethod("backend", "PooledConnect", "SetSessionVariables")
+			setCs := c.IfaceMethod("backend", "PooledConnect", "SetCharset")
+			var moved ssa.Instruction
+			for _, e := range errNilEdgesOfCall(call) {
+				if e.Val {
+					continue
+				}
+				searchExits(s.Fn, nil, e.If.Block().Succs[e.Succ], SearchOpts{Stop: func(in ssa.Instruction) bool {
+					x := callCommon(in)
+					if x != nil && (callsIfaceMethod(x, setVars) || callsIfaceMethod(x, setCs)) && sameVal(recvOf(x), pc) {
+						moved = in
+					}
+					return false
+				}})
+			}
+			if moved != nil {
+				r.viol("MP-C20b", name, cons+":no-belief-update", c.Pos(moved.Pos()), "after the backend rejected the SET, the connection's cached charset/variables are set to the client's settings anyway: the next statement finds nothing to synchronise and runs with the backend's old settings")
+			} else {
+				r.ok("MP-C20b", name, cons+":no-belief-update", c.Pos(call.Pos()), "the failure edge does not move the connection's cached settings")
+			}
+		}
 		if len(bad) == 0 {
 			r.ok("MP-C20b", name, cons, c.Pos(call.Pos()), "on failure the connection is closed before the function returns: no wrong belief reaches the pool")
 		} else {
